@@ -43,7 +43,7 @@ def _variant(rng):
 
 
 def generate(rng, seed, index, tier):
-    fam = str(rng.choice(["qp", "nlp", "degenerate", "domain", "infeasible", "unbounded"], p=[0.3, 0.3, 0.1, 0.1, 0.1, 0.1]))
+    fam = str(rng.choice(["qp", "nlp", "degenerate", "domain", "infeasible", "unbounded", "expo"], p=[0.27, 0.27, 0.1, 0.1, 0.08, 0.08, 0.1]))
     spec, x0, y0 = gen.gen_problem(rng, fam)
     if rng.random() < 0.3:
         spec["xzeros"] = True  # matrices with a fixed pattern that stores some zeros
@@ -60,6 +60,11 @@ def generate(rng, seed, index, tier):
         if np.any(a):
             comp = str(rng.choice(["obj", "grad", "cons", "jac"])) if spec["m"] else str(rng.choice(["obj", "grad"]))
             faults = [{"dev": "eval", "comp": comp, "kind": "nan", "region": {"a": a.tolist(), "b": float(a @ np.asarray(x0, float)) + float(rng.choice([0.05, 0.5]))}}]
+    if rng.random() < 0.08:
+        # a callback that cannot be evaluated at the start itself, in a run that hardly leaves it: whether and
+        # how the solve fails must not depend on who is watching
+        faults = [{"dev": "eval", "comp": str(rng.choice(["hess", "hess", "obj", "jac"])) if spec["m"] else "hess", "at_x0": True, "kind": "nan"}]
+        kw["iteration_limit"] = int(rng.choice([0, 1, 2]))
     variants = [_variant(rng) for _ in range(6)]
     # one variant is always the loudest
     variants[0]["obs"]["level"] = "DEBUG"
